@@ -164,9 +164,20 @@ func main() {
 		v.Eval(1)
 		sim.WriteConfDir(cfg)
 		eng.HAProxy.Reset()
-		if code, body := eng.Admin("POST", "/load_flows", nil); code != 200 {
+		if i%5 == 2 {
+			// HAProxy refuses one registration during this load: if the load still reports success, everything
+			// the engine runs flows for must be registered all the same
+			eng.HAProxy.FailOnce("PUT /managed_endpoint", r.Intn(3))
+			v.Count("loads_with_one_refused_registration", 1)
+		}
+		code, body := eng.Admin("POST", "/load_flows", nil)
+		eng.HAProxy.FailOnce("", 0)
+		if code != 200 {
 			v.Count("configs_rejected", 1)
 			_ = body
+			// leave a loadable configuration behind for the next case
+			sim.WriteConfDir(sim.Config{Flows: map[string]string{}, Quotas: map[string]string{}})
+			eng.Admin("POST", "/load_flows", nil)
 			continue
 		}
 		manageAll := false
